@@ -580,6 +580,7 @@ def unextract(trees):
             if nm in defs and isinstance(getattr(n, "ctx", None), ast.Load):
                 refs[nm] += 1
     done = []
+    touched = []
     tag_no = 0
     for name, lst in defs.items():
         if len(lst) != 1 or counts[name] != 1 or refs[name] != 1:
@@ -618,9 +619,58 @@ def unextract(trees):
             continue
         block[i:i + 1] = new
         done.append((rel, qual))
+        if caller_fn is not None and not any(caller_fn is f_ for f_ in touched):
+            touched.append(caller_fn)
         # the definition is now uncalled: take it out of the tree so that no rule analyses it as a stage of its own
         for owner in ast.walk(tree):
             body = getattr(owner, "body", None)
             if isinstance(body, list) and any(x is fn for x in body):
                 body[:] = [x for x in body if x is not fn] or [ast.Pass()]
+    for f_ in touched:
+        _renumber(f_)
     return done
+
+
+_BLOCKS = ("body", "handlers", "orelse", "finalbody")
+
+
+def _renumber(fn):
+    """Give the statements of a function with inlined helper bodies strictly increasing line numbers in source order (the lines inside one
+    statement keep their offsets), so that rules comparing positions see the order in which the statements run."""
+    cur = [fn.lineno]
+
+    def header_nodes(st):
+        todo = [st]
+        while todo:
+            n = todo.pop()
+            yield n
+            for field, val in ast.iter_fields(n):
+                if n is st and field in _BLOCKS + ("cases",):
+                    continue
+                if isinstance(val, ast.AST):
+                    todo.append(val)
+                elif isinstance(val, list):
+                    todo.extend(x for x in val if isinstance(x, ast.AST))
+
+    def do(st):
+        old = getattr(st, "lineno", None)
+        new = cur[0] + 1
+        span = 0
+        if old is not None:
+            for n in header_nodes(st):
+                if hasattr(n, "lineno") and n.lineno is not None:
+                    off = max(0, n.lineno - old)
+                    eoff = max(off, (getattr(n, "end_lineno", None) or n.lineno) - old) if n is not st else off
+                    n.lineno, n.end_lineno = new + off, new + eoff
+                    span = max(span, eoff)
+        cur[0] = new + span
+        for field in _BLOCKS + ("cases",):
+            for sub in getattr(st, field, None) or []:
+                if isinstance(sub, ast.AST):
+                    do(sub)
+        if hasattr(st, "end_lineno"):
+            st.end_lineno = max(cur[0], getattr(st, "lineno", cur[0]))
+
+    for st in fn.body:
+        do(st)
+    fn.end_lineno = cur[0]
